@@ -253,9 +253,9 @@ Proofs/SnapChain.vos Proofs/SnapChain.vok Proofs/SnapChain.required_vos: Proofs/
 Proofs/StreamBytes.vo Proofs/StreamBytes.glob Proofs/StreamBytes.v.beautified Proofs/StreamBytes.required_vo: Proofs/StreamBytes.v Base/Arith.vo Base/Plan.vo Model/AlignedStream.vo Model/AlignedStreamB.vo Proofs/AlignedStream.vo Proofs/AlignedStreamB.vo Proofs/BlockMapped.vo Proofs/StreamReaders.vo
 Proofs/StreamBytes.vio: Proofs/StreamBytes.v Base/Arith.vio Base/Plan.vio Model/AlignedStream.vio Model/AlignedStreamB.vio Proofs/AlignedStream.vio Proofs/AlignedStreamB.vio Proofs/BlockMapped.vio Proofs/StreamReaders.vio
 Proofs/StreamBytes.vos Proofs/StreamBytes.vok Proofs/StreamBytes.required_vos: Proofs/StreamBytes.v Base/Arith.vos Base/Plan.vos Model/AlignedStream.vos Model/AlignedStreamB.vos Proofs/AlignedStream.vos Proofs/AlignedStreamB.vos Proofs/BlockMapped.vos Proofs/StreamReaders.vos
-Proofs/StreamReaders.vo Proofs/StreamReaders.glob Proofs/StreamReaders.v.beautified Proofs/StreamReaders.required_vo: Proofs/StreamReaders.v Base/Arith.vo Base/Plan.vo Base/Table.vo Model/AlignedStream.vo Proofs/AlignedStream.vo Model/Walk.vo Proofs/BlockMapped.vo Model/Vhd.vo Proofs/Vhd.vo Model/Vdi.vo Proofs/Vdi.vo Model/Vhdx.vo Proofs/Vhdx.vo Model/Hds.vo Proofs/Hds.vo Model/Qcow2.vo Proofs/Qcow2.vo Proofs/Qcow2Total.vo Spec/Qcow2.vo
-Proofs/StreamReaders.vio: Proofs/StreamReaders.v Base/Arith.vio Base/Plan.vio Base/Table.vio Model/AlignedStream.vio Proofs/AlignedStream.vio Model/Walk.vio Proofs/BlockMapped.vio Model/Vhd.vio Proofs/Vhd.vio Model/Vdi.vio Proofs/Vdi.vio Model/Vhdx.vio Proofs/Vhdx.vio Model/Hds.vio Proofs/Hds.vio Model/Qcow2.vio Proofs/Qcow2.vio Proofs/Qcow2Total.vio Spec/Qcow2.vio
-Proofs/StreamReaders.vos Proofs/StreamReaders.vok Proofs/StreamReaders.required_vos: Proofs/StreamReaders.v Base/Arith.vos Base/Plan.vos Base/Table.vos Model/AlignedStream.vos Proofs/AlignedStream.vos Model/Walk.vos Proofs/BlockMapped.vos Model/Vhd.vos Proofs/Vhd.vos Model/Vdi.vos Proofs/Vdi.vos Model/Vhdx.vos Proofs/Vhdx.vos Model/Hds.vos Proofs/Hds.vos Model/Qcow2.vos Proofs/Qcow2.vos Proofs/Qcow2Total.vos Spec/Qcow2.vos
+Proofs/StreamReaders.vo Proofs/StreamReaders.glob Proofs/StreamReaders.v.beautified Proofs/StreamReaders.required_vo: Proofs/StreamReaders.v Base/Arith.vo Base/Plan.vo Base/Table.vo Model/AlignedStream.vo Proofs/AlignedStream.vo Model/Walk.vo Proofs/BlockMapped.vo Model/Vhd.vo Proofs/Vhd.vo Model/Vdi.vo Proofs/Vdi.vo Model/Vhdx.vo Proofs/Vhdx.vo Model/Hds.vo Proofs/Hds.vo Model/Qcow2.vo Proofs/Qcow2.vo Proofs/Qcow2Total.vo Spec/Qcow2.vo Model/Vmdk.vo Proofs/Vmdk.vo
+Proofs/StreamReaders.vio: Proofs/StreamReaders.v Base/Arith.vio Base/Plan.vio Base/Table.vio Model/AlignedStream.vio Proofs/AlignedStream.vio Model/Walk.vio Proofs/BlockMapped.vio Model/Vhd.vio Proofs/Vhd.vio Model/Vdi.vio Proofs/Vdi.vio Model/Vhdx.vio Proofs/Vhdx.vio Model/Hds.vio Proofs/Hds.vio Model/Qcow2.vio Proofs/Qcow2.vio Proofs/Qcow2Total.vio Spec/Qcow2.vio Model/Vmdk.vio Proofs/Vmdk.vio
+Proofs/StreamReaders.vos Proofs/StreamReaders.vok Proofs/StreamReaders.required_vos: Proofs/StreamReaders.v Base/Arith.vos Base/Plan.vos Base/Table.vos Model/AlignedStream.vos Proofs/AlignedStream.vos Model/Walk.vos Proofs/BlockMapped.vos Model/Vhd.vos Proofs/Vhd.vos Model/Vdi.vos Proofs/Vdi.vos Model/Vhdx.vos Proofs/Vhdx.vos Model/Hds.vos Proofs/Hds.vos Model/Qcow2.vos Proofs/Qcow2.vos Proofs/Qcow2Total.vos Spec/Qcow2.vos Model/Vmdk.vos Proofs/Vmdk.vos
 Proofs/Text.vo Proofs/Text.glob Proofs/Text.v.beautified Proofs/Text.required_vo: Proofs/Text.v Model/Text.vo
 Proofs/Text.vio: Proofs/Text.v Model/Text.vio
 Proofs/Text.vos Proofs/Text.vok Proofs/Text.required_vos: Proofs/Text.v Model/Text.vos
@@ -319,9 +319,9 @@ Props/C06.vos Props/C06.vok Props/C06.required_vos: Props/C06.v Base/Plan.vos Ba
 Props/C07.vo Props/C07.glob Props/C07.v.beautified Props/C07.required_vo: Props/C07.v Model/Qcow2.vo Proofs/Qcow2.vo Spec/Qcow2.vo Base/Plan.vo Base/Table.vo Model/Chain.vo Proofs/Chain.vo Proofs/Layers.vo Model/Vdi.vo Proofs/Vdi.vo Model/Hds.vo Proofs/Hds.vo Model/Vhdx.vo Proofs/Vhdx.vo Proofs/VhdxPartial.vo Proofs/VhdxLayer.vo Model/OpenParent.vo Proofs/OpenParent.vo
 Props/C07.vio: Props/C07.v Model/Qcow2.vio Proofs/Qcow2.vio Spec/Qcow2.vio Base/Plan.vio Base/Table.vio Model/Chain.vio Proofs/Chain.vio Proofs/Layers.vio Model/Vdi.vio Proofs/Vdi.vio Model/Hds.vio Proofs/Hds.vio Model/Vhdx.vio Proofs/Vhdx.vio Proofs/VhdxPartial.vio Proofs/VhdxLayer.vio Model/OpenParent.vio Proofs/OpenParent.vio
 Props/C07.vos Props/C07.vok Props/C07.required_vos: Props/C07.v Model/Qcow2.vos Proofs/Qcow2.vos Spec/Qcow2.vos Base/Plan.vos Base/Table.vos Model/Chain.vos Proofs/Chain.vos Proofs/Layers.vos Model/Vdi.vos Proofs/Vdi.vos Model/Hds.vos Proofs/Hds.vos Model/Vhdx.vos Proofs/Vhdx.vos Proofs/VhdxPartial.vos Proofs/VhdxLayer.vos Model/OpenParent.vos Proofs/OpenParent.vos
-Props/C08.vo Props/C08.glob Props/C08.v.beautified Props/C08.required_vo: Props/C08.v Model/Qcow2.vo Proofs/Qcow2.vo Spec/Qcow2.vo Base/Plan.vo Base/Table.vo Model/AlignedStream.vo Proofs/AlignedStream.vo Model/Lru.vo Proofs/Lru.vo Proofs/StreamReaders.vo Model/AlignedStreamB.vo Proofs/AlignedStreamB.vo Proofs/StreamBytes.vo Model/Vhd.vo Proofs/Vhd.vo Model/Vdi.vo Proofs/Vdi.vo Model/Vhdx.vo Proofs/Vhdx.vo Model/Hds.vo Proofs/Hds.vo
-Props/C08.vio: Props/C08.v Model/Qcow2.vio Proofs/Qcow2.vio Spec/Qcow2.vio Base/Plan.vio Base/Table.vio Model/AlignedStream.vio Proofs/AlignedStream.vio Model/Lru.vio Proofs/Lru.vio Proofs/StreamReaders.vio Model/AlignedStreamB.vio Proofs/AlignedStreamB.vio Proofs/StreamBytes.vio Model/Vhd.vio Proofs/Vhd.vio Model/Vdi.vio Proofs/Vdi.vio Model/Vhdx.vio Proofs/Vhdx.vio Model/Hds.vio Proofs/Hds.vio
-Props/C08.vos Props/C08.vok Props/C08.required_vos: Props/C08.v Model/Qcow2.vos Proofs/Qcow2.vos Spec/Qcow2.vos Base/Plan.vos Base/Table.vos Model/AlignedStream.vos Proofs/AlignedStream.vos Model/Lru.vos Proofs/Lru.vos Proofs/StreamReaders.vos Model/AlignedStreamB.vos Proofs/AlignedStreamB.vos Proofs/StreamBytes.vos Model/Vhd.vos Proofs/Vhd.vos Model/Vdi.vos Proofs/Vdi.vos Model/Vhdx.vos Proofs/Vhdx.vos Model/Hds.vos Proofs/Hds.vos
+Props/C08.vo Props/C08.glob Props/C08.v.beautified Props/C08.required_vo: Props/C08.v Model/Qcow2.vo Proofs/Qcow2.vo Spec/Qcow2.vo Model/Vmdk.vo Proofs/Vmdk.vo Base/Plan.vo Base/Table.vo Model/AlignedStream.vo Proofs/AlignedStream.vo Model/Lru.vo Proofs/Lru.vo Proofs/StreamReaders.vo Model/AlignedStreamB.vo Proofs/AlignedStreamB.vo Proofs/StreamBytes.vo Model/Vhd.vo Proofs/Vhd.vo Model/Vdi.vo Proofs/Vdi.vo Model/Vhdx.vo Proofs/Vhdx.vo Model/Hds.vo Proofs/Hds.vo
+Props/C08.vio: Props/C08.v Model/Qcow2.vio Proofs/Qcow2.vio Spec/Qcow2.vio Model/Vmdk.vio Proofs/Vmdk.vio Base/Plan.vio Base/Table.vio Model/AlignedStream.vio Proofs/AlignedStream.vio Model/Lru.vio Proofs/Lru.vio Proofs/StreamReaders.vio Model/AlignedStreamB.vio Proofs/AlignedStreamB.vio Proofs/StreamBytes.vio Model/Vhd.vio Proofs/Vhd.vio Model/Vdi.vio Proofs/Vdi.vio Model/Vhdx.vio Proofs/Vhdx.vio Model/Hds.vio Proofs/Hds.vio
+Props/C08.vos Props/C08.vok Props/C08.required_vos: Props/C08.v Model/Qcow2.vos Proofs/Qcow2.vos Spec/Qcow2.vos Model/Vmdk.vos Proofs/Vmdk.vos Base/Plan.vos Base/Table.vos Model/AlignedStream.vos Proofs/AlignedStream.vos Model/Lru.vos Proofs/Lru.vos Proofs/StreamReaders.vos Model/AlignedStreamB.vos Proofs/AlignedStreamB.vos Proofs/StreamBytes.vos Model/Vhd.vos Proofs/Vhd.vos Model/Vdi.vos Proofs/Vdi.vos Model/Vhdx.vos Proofs/Vhdx.vos Model/Hds.vos Proofs/Hds.vos
 Props/C09.vo Props/C09.glob Props/C09.v.beautified Props/C09.required_vo: Props/C09.v Gen/Effects.vo Model/Effects.vo Proofs/Effects.vo
 Props/C09.vio: Props/C09.v Gen/Effects.vio Model/Effects.vio Proofs/Effects.vio
 Props/C09.vos Props/C09.vok Props/C09.required_vos: Props/C09.v Gen/Effects.vos Model/Effects.vos Proofs/Effects.vos
